@@ -190,7 +190,29 @@ fn explore(args: &[String]) {
     let mut distinct: std::collections::HashSet<u64> = std::collections::HashSet::new();
     let mut total_steps = 0usize;
     let mut total_calls = 0usize;
+    let only: Option<usize> = arg(args, "--only").and_then(|s| s.parse().ok());
+    // --sweep T:D:W — stall thread T at each of its own steps D-2 .. D+W (three run seeds each)
+    let sweep: Option<(usize, usize, usize)> = arg(args, "--sweep").and_then(|s| {
+        let v: Vec<usize> = s.split(':').filter_map(|x| x.parse().ok()).collect();
+        if v.len() == 3 { Some((v[0], v[1], v[2])) } else { None }
+    });
+    let mut jobs: Vec<(usize, Option<(usize, usize, u64)>)> = Vec::new();
     for i in 0..count {
+        if let Some(o) = only {
+            if o != i { continue; }
+        }
+        match sweep {
+            Some((t, d, wd)) => {
+                for off in 0..(wd + 3) {
+                    for k in 0..3u64 {
+                        jobs.push((i, Some((t, (d + off).saturating_sub(2), k))));
+                    }
+                }
+            }
+            None => jobs.push((i, None)),
+        }
+    }
+    for (i, sw) in jobs {
         let fam = &families[i % families.len()];
         let mut rng = Rng(seed.wrapping_mul(0x9E37_79B9).wrapping_add(i as u64 * 7919));
         let mut sc = gen::gen(fam, &mut rng);
@@ -214,6 +236,7 @@ fn explore(args: &[String]) {
         let strat = if fam == "pin" && rng.chance(5, 6) {
             Strategy::Script(vec![Ph::UntilThreads(0, 3), Ph::Steps(1, 3 + rng.below(6)), Ph::ToEnd(2), Ph::Steps(1, 1 + rng.below(5)), Ph::Steps(0, 8 + rng.below(10))])
         } else { strat };
+        let strat = match sw { Some((t, at, _)) => Strategy::Stall { victim: t, at }, None => strat };
         let sname = match &strat {
             Strategy::Random => "random".to_string(),
             Strategy::Script(_) => "script".to_string(),
@@ -224,7 +247,8 @@ fn explore(args: &[String]) {
             _ => "replay".to_string(),
         };
         allocs::t_reset();
-        let r = run_scenario(&sc, &strat, rng.next(), budget);
+        let run_seed = rng.next().wrapping_add(match sw { Some((_, at, k)) => (at as u64) * 31 + k * 1_000_003, None => 0 });
+        let r = run_scenario(&sc, &strat, run_seed, budget);
         let mut vs = monitors::analyze(&sc, &r);
         total_steps += r.steps;
         total_calls += r.calls.len();
@@ -249,7 +273,7 @@ fn explore(args: &[String]) {
         if samples.len() < 3 {
             samples.push(format!("{} | {} | threads={} steps={} calls={} outcome={:?}", sc.cfg.text(), sc.main.iter().map(|o| o.text()).collect::<Vec<_>>().join("; "), r.nthreads, r.steps, r.calls.len(), r.outcome));
         }
-        let name = format!("{}-{}-{}-{}", tag, fam, seed, i);
+        let name = match sw { Some((_, at, k)) => format!("{}-{}-{}-{}-sw{}-{}", tag, fam, seed, i, at, k), None => format!("{}-{}-{}-{}", tag, fam, seed, i) };
         if let Some(f) = tf.as_mut() {
             writeln!(f, "=== {}", name).unwrap();
             f.write_all(trace_text(&r.trace, &r.names).as_bytes()).unwrap();
